@@ -148,8 +148,10 @@ def run_group(nap, op, keys, tss, s, e, p, dr):
         return ("exc", "not a TsGroup: " + type(r).__name__)
     ks = [int(k) for k in r.keys()]
     gs = [(C.to_ns(a), C.to_ns(b)) for a, b in r.time_support.values]
+    # ticks of support endpoints stored as NON-canonical floats (trimmed `end - 1e-6`, never re-rounded): DESIGN.md section 2
+    nc = [C.to_ns(x) for x in r.time_support.values.ravel() if float(x) != C.to_ns(x) / 1e9]
     return ("ok", ks, [[C.to_ns(v) for v in r[k].t] for k in r.keys()], gs,
-            [[(C.to_ns(a), C.to_ns(b)) for a, b in r[k].time_support.values] for k in r.keys()])
+            [[(C.to_ns(a), C.to_ns(b)) for a, b in r[k].time_support.values] for k in r.keys()], nc)
 
 
 # --------------------------------------------------------------------------------------
@@ -228,7 +230,7 @@ def judge_group(op, keys, tss, s, e, p, r, draws):
         elif r[1] == "RuntimeError" and not support_kept(op, p) and all(degenerate):
             key["pattern"] = "all_members_single_distinct_timestamp"
         return [{"key": key, "what": "%s(TsGroup) raised %s" % (op, r[1])}]
-    _, ks, outs, gs, msups = r
+    _, ks, outs, gs, msups = r[:5]
     v = []
     if ks != list(keys):
         v.append({"key": {"op": op, "kind": kind, "part": "keys"}, "what": "%s(TsGroup): keys not preserved" % op, "impl": ks, "expected": list(keys)})
@@ -580,7 +582,7 @@ def run(res, tier, seed):
             members = [inp["ts"]] if kind == "Ts" else inp["tss"]
             coincide = any((t - s_ + d[0]) % L_ == 0 for tsm, d in zip(members, inp["draws"]) for t in tsm)
             if not coincide:
-                res.disagreements.append({"op": inp["op"], "kind": kind, "input": inp, "impl": r[:4], "model": m})
+                res.disagreements.append({"op": inp["op"], "kind": kind, "input": inp, "impl": r[1:4], "model": m})
                 continue
             if kind == "Ts" and fold(r[1]) == fold(m[1]) and list(r[2]) == m[2]:
                 res.float_ambiguous += 1
@@ -588,8 +590,18 @@ def run(res, tier, seed):
             if kind == "TsGroup" and r[1] == m[1] and [fold(x) for x in r[2]] == [fold(x) for x in m[2]] and r[3] == m[3]:
                 res.float_ambiguous += 1
                 continue
+        if not same and kind == "TsGroup" and r[0] == "ok" and m[0] == "ok" and not support_kept(inp["op"], inp["params"]):
+            # recomputed support of two touching member supports: the constructor's trimmed end `start_of_next - 1e-6` is not
+            # re-rounded and may be one ulp off the canonical float, so (i) a stamp whose tick equals that end may be in or out,
+            # (ii) when the earlier support is exactly 1 us long the implementation may keep a zero-length (in ticks) interval
+            # [a, a] that the tick model drops.  Only stamps ON such a non-canonical endpoint may differ (DESIGN.md section 2)
+            nc = r[5]
+            if nc and [iv for iv in r[3] if iv[0] != iv[1]] == m[3] and r[1] == m[1] and \
+                    [[x for x in mem if x not in nc] for mem in r[2]] == [[x for x in mem if x not in nc] for mem in m[2]]:
+                res.float_ambiguous += 1
+                continue
         if not same:
-            res.disagreements.append({"op": inp["op"], "kind": kind, "input": inp, "impl": r[:4], "model": m})
+            res.disagreements.append({"op": inp["op"], "kind": kind, "input": inp, "impl": r[1:4], "model": m})
     res.traces = len(pending)
 
     # (D) NumPy's real generator: the statement for every state of the generator we can afford
